@@ -186,7 +186,29 @@ pub fn desc_shape(d: &str) -> String { crate::desc::try_map_desc(d, |_| String::
 // ------------------------------------------------------------------------------------------------------------
 // model -> quill
 
-fn js(s: &str) -> JavaString { JavaString::from(s.to_owned()) }
+thread_local! { static SURROGATE: std::cell::Cell<Option<u16>> = const { std::cell::Cell::new(None) }; static SUR_BUILT: std::cell::Cell<u64> = const { std::cell::Cell::new(0) }; }
+/// is [`set_surrogate`] active on this thread?
+pub fn surrogate_active() -> bool { SURROGATE.with(|c| c.get().is_some()) }
+/// how many strings with a lone surrogate [`js`] has built on this thread
+pub fn surrogates_built() -> u64 { SUR_BUILT.with(|c| c.get()) }
+/// While `Some(u)` (`u` in 0xD800..=0xDFFF) is set on this thread, every U+FFFD in a name / descriptor of a model is built as the
+/// lone surrogate `u` in the quill tree ([`to_quill`], [`to_quill_diff`]); [`from_quill`] shows it as U+FFFD again ([`jstr`] is
+/// lossy), so model-level oracles stay valid for every operation that only moves and compares names. One value per case keeps
+/// the substitution injective. `None` (the default) = off. Used by the Miri slices only.
+pub fn set_surrogate(u: Option<u16>) { SURROGATE.with(|c| c.set(u.filter(|u| (0xD800..=0xDFFF).contains(u)))); }
+/// The string as quill gets it (U+FFFD -> the lone surrogate set by [`set_surrogate`], if any).
+pub fn js(s: &str) -> JavaString {
+    match SURROGATE.with(|c| c.get()) {
+        Some(u) if s.contains('\u{fffd}') => {
+            let sur = java_string::JavaCodePoint::from_u32(u as u32).expect("surrogate code point");
+            let mut out = JavaString::with_capacity(s.len());
+            for ch in s.chars() { if ch == '\u{fffd}' { out.push_java(sur); } else { out.push(ch); } }
+            SUR_BUILT.with(|c| c.set(c.get() + 1));
+            out
+        }
+        _ => JavaString::from(s.to_owned()),
+    }
+}
 
 fn names_to_quill<const N: usize, T>(row: &Row, what: &str) -> Result<Names<N, T>>
 where T: TryFrom<JavaString, Error = anyhow::Error> + AsRef<JavaStr> + std::fmt::Debug {
